@@ -135,6 +135,15 @@ def make_case(rnd, prop):
             # inline copies of a shift must stay in sync with the (possibly rewritten) shift
         return name, m, mfree
     m = gen.gen(rnd, **kw)
+    if prop == "C10":
+        # shapes aimed at "containers and resource groups never occupy resource time"
+        if m.get("groups") and rnd.random() < 0.35:
+            leaves_ = [t for t in m["tasks"] if "effort_min" in t]
+            if leaves_:
+                rnd.choice(leaves_)["alloc"] = [rnd.choice(m["groups"])["id"]]       # a task that allocates a GROUP
+        conts = [t for t in m["tasks"] if t["container"]]
+        if conts and rnd.random() < 0.35:
+            rnd.choice(conts)["alloc"] = [rnd.choice(m["resources"])["id"]]          # allocation written on a container
     if prop == "C10" and name == "unschedulable-mix" and rnd.random() < 0.5 and m["resources"]:
         # a resource that never works inside the window: its tasks cannot be scheduled
         r = rnd.choice(m["resources"])
